@@ -80,7 +80,10 @@ CLAUSE_PROPERTIES = {
 RULE = ("a case = one generated operation sequence, identified by (seed, index) (rng = random.Random(seed*1000003+index)); evaluations = "
         "operations executed against the real broker (each followed by a comparison with the ledger); a sequence is non-trivial iff it "
         "contains at least one fill, one accepted transfer, one refused request and one read-only query; distinct = distinct by the "
-        "SHA-1 of the full rendered operation list")
+        "SHA-1 of the full rendered operation list.  After a step with a failed check the sequence CONTINUES with the ledger "
+        "resynchronised to the broker's actual state (cash, holdings, latest prices, pending queues, histories); a clause is recorded "
+        "and counted at most once per sequence (at its first failing step), so clauses[c]['failed'] = number of sequences in which c "
+        "failed; `failures` keeps the 3 smallest cases (earliest failing step) of every failing clause")
 
 _US = 10 ** 6
 _DAY = 86400 * _US
@@ -330,7 +333,7 @@ def _raw(broker):
 
 
 def _run_sequence(seed, index, acc, want_render=12):
-    """Generate and execute sequence (seed, index).  Returns a dict with the failures of the FIRST failing step (if any)."""
+    """Generate and execute sequence (seed, index).  Returns a dict with the first failure of every clause that failed in it."""
     import pandas as pd
     from qstrader.broker.fee_model.percent_fee_model import PercentFeeModel
     from qstrader.broker.fee_model.zero_fee_model import ZeroFeeModel
@@ -363,15 +366,18 @@ def _run_sequence(seed, index, acc, want_render=12):
     seen_hist = {}                 # pid -> number of history events already compared
     ops = []                       # rendered operations
     stats = {'fills': 0, 'refused': 0, 'transfers': 0, 'queries': 0}
-    step_fail = []
+    step_fail = []                 # clauses failing for the first time in this sequence at the current step
+    seq_fail = {}                  # clause -> its first failure in this sequence (a clause is recorded once per sequence)
+    dirty = [False]                # any check failed at the current step -> the ledger is resynchronised after the step
     step = [0]
 
     def chk(clause, ok, observed=None, expected=None):
         c = acc[clause]
         c[0] += 1
         if not ok:
-            c[1] += 1
-            if not any(f['clause'] == clause for f in step_fail):
+            dirty[0] = True
+            if clause not in seq_fail and not any(f['clause'] == clause for f in step_fail):
+                c[1] += 1
                 step_fail.append({'clause': clause, 'observed': observed, 'expected': expected})
         return ok
 
@@ -489,7 +495,7 @@ def _run_sequence(seed, index, acc, want_render=12):
 
     def after_op():
         compare_raw()
-        if dense and not step_fail:
+        if dense and not dirty[0]:
             try:
                 compare_getters()
             except Exception as e:        # "always obtainable"
@@ -720,6 +726,7 @@ def _run_sequence(seed, index, acc, want_render=12):
             broker.update(ts(t))
         except Exception as e:
             chk('filled-once-in-full', False, 'update raised %s: %s' % (type(e).__name__, e), 'normal termination')
+            L.now = t
             raise _Stop()
         obs = txn_log[n_log:]
         exp = L.update(t)
@@ -878,37 +885,80 @@ def _run_sequence(seed, index, acc, want_render=12):
             return op_query()
         return {'sub_pf': op_sub_pf, 'wd_pf': op_wd_pf, 'sub_acct': op_sub_acct, 'wd_acct': op_wd_acct}[k](False)
 
+    # -- resynchronisation: after a failing step the ledger adopts the broker's ACTUAL state, so that the following steps are
+    #    judged on their own and one divergence is not reported again as a cascade under other clauses ----------------------
+    def resync():
+        L.master = broker.cash_balances['USD']
+        pids = list(broker.portfolios.keys())
+        for d in (L.cash, L.hold, L.last, L.pending, L.hist):
+            for k in [k for k in d if k not in pids]:
+                del d[k]
+        L.order = pids
+        tok_by_id = {id(o): tok for tok, o in order_objs.items()}
+        for pid in pids:
+            p = broker.portfolios[pid]
+            if 'transact_asset' not in p.__dict__:       # a portfolio object the harness has not seen (e.g. silently replaced)
+                wrap(pid)
+            L.cash[pid] = p.cash
+            hold, last = {}, {}
+            for a, x in p.pos_handler.positions.items():
+                q = x.buy_quantity - x.sell_quantity
+                if q == int(q):
+                    q = int(q)
+                if q != 0:
+                    hold[a] = q
+                    last[a] = x.current_price
+            L.hold[pid], L.last[pid] = hold, last
+            pend = []
+            for o in (_pending(broker, pid) if pid in broker.open_orders else []):
+                tok = tok_by_id.get(id(o))
+                if tok is None:
+                    tokens[0] += 1
+                    tok = tokens[0]
+                    order_objs[tok] = o
+                pend.append((tok, o.asset, o.quantity))
+            L.pending[pid] = pend
+            L.hist[pid] = [(ev.type, 'credit' if ev.credit else 'debit', ev.credit or ev.debit, ev.balance, None) for ev in p.history]
+            seen_hist[pid] = len(p.history)
+
     # -- main loop -------------------------------------------------------------------------------------------------------
     executed = 0
-    try:
-        for i in range(n_ops):
-            step[0] = i
-            n_log = len(txn_log)
-            n_before = len(ops)
+    for i in range(n_ops):
+        step[0] = i
+        del step_fail[:]
+        dirty[0] = False
+        n_log = len(txn_log)
+        n_before = len(ops)
+        try:
             one_op()
-            executed += 1
-            if ops[n_before][0] != 'update':
+            if len(ops) > n_before and ops[n_before][0] != 'update':
                 chk('pending-until-first-open-update', len(txn_log) == n_log,
                     'fill outside update: %r' % (txn_log[n_log:][:2],), 'no fill')
             after_op()
-            if step_fail:
+        except _Stop:           # the step was abandoned (a valid request or an update raised); already recorded
+            pass
+        except Exception as e:  # the harness could not observe the state (never raise out of run())
+            chk('cash-ledger', False, 'state not observable: %s: %s' % (type(e).__name__, e), 'observable broker state')
+        executed += 1
+        if dirty[0]:
+            for f in step_fail:
+                seq_fail[f['clause']] = dict(f, step=i, failing_op=ops[-1] if len(ops) > n_before else None,
+                                             tail=[list(o) for o in ops[max(0, len(ops) - 6):]])
+            try:
+                resync()
+            except Exception:
                 break
-    except _Stop:
-        executed += 1
-    except Exception as e:      # the harness could not observe the state (never raise out of run())
-        executed += 1
-        chk('cash-ledger', False, 'state not observable: %s: %s' % (type(e).__name__, e), 'observable broker state')
     digest = hashlib.sha1(repr(ops).encode()).hexdigest()
     out = {'n_ops': n_ops, 'executed': executed, 'digest': digest, 'stats': stats,
            'nontrivial': all(stats[k] > 0 for k in ('fills', 'transfers', 'refused', 'queries')), 'failures': []}
     cfg = {'fee': 'zero' if fee_cfg is None else list(fee_cfg), 'initial_funds': initial, 'assets': assets, 'dense': dense,
            'dup_order_ids': dup_ids, 'start': _iso(start)}
-    if step_fail:
-        for f in sorted(step_fail, key=lambda f: _PRIORITY.index(f['clause'])):
-            out['failures'].append({'clause': f['clause'],
-                                    'case': {'seed': seed, 'index': index, 'clause': f['clause'], 'step': step[0], 'n_ops': n_ops, 'config': cfg,
-                                             'failing_op': ops[-1] if ops else None, 'ops': ops[:want_render]},
-                                    'observed': _jsonable(f['observed']), 'expected': _jsonable(f['expected'])})
+    for f in sorted(seq_fail.values(), key=lambda f: (f['step'], _PRIORITY.index(f['clause']))):
+        out['failures'].append({'clause': f['clause'],
+                                'case': {'seed': seed, 'index': index, 'clause': f['clause'], 'step': f['step'], 'n_ops': n_ops,
+                                         'config': cfg, 'failing_op': f['failing_op'], 'ops': ops[:want_render],
+                                         'ops_before_failure': f['tail']},
+                                'observed': _jsonable(f['observed']), 'expected': _jsonable(f['expected'])})
     out['sample'] = {'seed': seed, 'index': index, 'n_ops': n_ops, 'config': cfg, 'ops': ops[:8], 'stats': stats}
     return out
 
@@ -952,11 +1002,9 @@ def _run_range(args):
             if len(samples) < 2 and r['n_ops'] <= 20:
                 samples.append(r['sample'])
         fails.extend(r['failures'])
-        if len(fails) > 200:
-            fails.sort(key=_fail_key)
-            del fails[25:]
-    fails.sort(key=_fail_key)
-    return {'acc': acc, 'fails': fails[:25], 'digests': digests, 'samples': samples, 'evaluations': evaluations, 'done': done,
+        if len(fails) > 400:
+            fails = _smallest_per_clause(fails)
+    return {'acc': acc, 'fails': _smallest_per_clause(fails), 'digests': digests, 'samples': samples, 'evaluations': evaluations, 'done': done,
             'complete': done == hi - lo}
 
 
@@ -970,6 +1018,19 @@ _PRIORITY = ['refusal-type', 'refusal-changes-nothing', 'pending-until-first-ope
 
 def _fail_key(f):
     return (f['case']['step'], f['case']['n_ops'], f['case']['index'], _PRIORITY.index(f['clause']))
+
+
+_KEEP_PER_CLAUSE = 3
+
+
+def _smallest_per_clause(fails):
+    """The _KEEP_PER_CLAUSE smallest failing cases of EVERY clause (so that a clause that fails rarely or late is not crowded out)."""
+    out, n = [], {}
+    for f in sorted(fails, key=_fail_key):
+        if n.get(f['clause'], 0) < _KEEP_PER_CLAUSE:
+            n[f['clause']] = n.get(f['clause'], 0) + 1
+            out.append(f)
+    return out
 
 
 def run(tier='quick', seed=0, budget_s=60.0, jobs=1):
@@ -1003,7 +1064,7 @@ def run(tier='quick', seed=0, budget_s=60.0, jobs=1):
         evaluations += p['evaluations']
         done += p['done']
         complete = complete and p['complete']
-    fails.sort(key=_fail_key)
+    fails = _smallest_per_clause(fails)
     return {
         'evaluations': evaluations,
         'sequences': done,
@@ -1014,7 +1075,7 @@ def run(tier='quick', seed=0, budget_s=60.0, jobs=1):
         'budget_cut': not complete,
         'clauses': {c: {'checked': acc[c][0], 'failed': acc[c][1]} for c in CLAUSES},
         'n_failures': sum(v[1] for v in acc.values()),
-        'failures': fails[:25],
+        'failures': fails,
         'elapsed_s': round(time.time() - t0, 2),
     }
 
@@ -1026,7 +1087,10 @@ def replay(case):
     fs = r['failures']
     if not fs:
         return {'reproduced': False, 'clause': None, 'observed': None, 'expected': 'ledger'}
-    f = ([x for x in fs if x['clause'] == case.get('clause')] or fs)[0]
+    want = case.get('clause')
+    if want is not None and not any(x['clause'] == want for x in fs):
+        return {'reproduced': False, 'clause': want, 'clauses': [x['clause'] for x in fs], 'observed': None, 'expected': 'ledger'}
+    f = ([x for x in fs if x['clause'] == want] or fs)[0]
     return {'reproduced': True, 'clause': f['clause'], 'clauses': [x['clause'] for x in fs], 'step': f['case']['step'],
             'observed': f['observed'], 'expected': f['expected']}
 
